@@ -12,6 +12,7 @@ import (
 	"os"
 	"sort"
 	"strings"
+	"sync"
 	"testing"
 	"testing/iotest"
 
@@ -611,6 +612,58 @@ func TestC10_R_SourceWithEmptyReads(t *testing.T) {
 			got, gsz, err := buildFileR(NewStore().LinkSystem(), &stutterReader{r: bytes.NewReader(data), frag: frag}, c.chunker, c.w)
 			if err != nil || got != want || gsz != wsz {
 				t.Fatalf("C10: %d bytes (chunker %q) from a source delivering %d-byte fragments with an empty read before each: %s / %d (err %v), from a plain reader %s / %d", c.n, c.chunker, frag, got, gsz, err, want, wsz)
+			}
+		}
+	}
+}
+
+// A request the builder refuses (a fanout that is no power of two) followed by sharded builds of different entry sets on
+// eight goroutines at once, round after round: each set gets the link and size it gets alone.
+func TestC10_R_ConcurrentShardedBuildsAfterARefusedRequest(t *testing.T) {
+	const G = 8
+	type job struct {
+		es   []entrySpec
+		want cid.Cid
+		wsz  uint64
+	}
+	jobs := make([]job, G)
+	for g := range jobs {
+		for i := 0; i < 400+g*37; i++ {
+			jobs[g].es = append(jobs[g].es, entryFor(fmt.Sprintf("set%d-entry-%04d", g, i), g))
+		}
+		c, sz, err := buildSharded(NewStore(), jobs[g].es, 256)
+		if err != nil {
+			t.Fatal(err)
+		}
+		jobs[g].want, jobs[g].wsz = c, sz
+	}
+	for round := 0; round < 12; round++ {
+		for _, bad := range []int{100, 3, 0, 24} {
+			if _, _, err := buildSharded(NewStore(), jobs[0].es[:5], bad); err == nil {
+				t.Fatalf("harness: fanout %d accepted", bad)
+			}
+		}
+		errs := make([]string, G)
+		var wg sync.WaitGroup
+		for g := 0; g < G; g++ {
+			wg.Add(1)
+			go func(g int) {
+				defer wg.Done()
+				p, _ := safe(func() {
+					c, sz, err := buildSharded(NewStore(), jobs[g].es, 256)
+					if err != nil || c != jobs[g].want || sz != jobs[g].wsz {
+						errs[g] = fmt.Sprintf("set %d (%d entries): %v / %d (err %v), alone %s / %d", g, len(jobs[g].es), c, sz, err, jobs[g].want, jobs[g].wsz)
+					}
+				})
+				if p != nil {
+					errs[g] = fmt.Sprintf("set %d: panic: %v", g, p)
+				}
+			}(g)
+		}
+		wg.Wait()
+		for _, e := range errs {
+			if e != "" {
+				t.Fatalf("C10: %d sharded builds at once after refused requests (round %d): %s", G, round, e)
 			}
 		}
 	}
